@@ -154,62 +154,90 @@ Proof.
   - intros H. exists k; split; [exact H|apply bytes_eqb_refl].
 Qed.
 
-Record cinv (c : cst) : Prop := {
-  ci_stat : cstat c <> PCommitted;
-  ci_none : ccommitted c = [];
-  ci_part : forall k, In k (crolled c) -> ~ In k (clocks c)
+(* the outcome every lock is driven to is fixed by the status the primary had at the crash *)
+Definition out_of (st0 : pstat) (k : key) (c : cst) : Prop :=
+  match decide st0 with PCommitted ts => In (k, ts) (ccommitted c) | _ => In k (crolled c) end.
+
+Record cinv (st0 : pstat) (c : cst) : Prop := {
+  ci_stat : cstat c = st0 \/ cstat c = decide st0;
+  ci_comm : forall k ts, In (k, ts) (ccommitted c) -> decide st0 = PCommitted ts;
+  ci_roll : forall k, In k (crolled c) -> forall ts, decide st0 <> PCommitted ts;
+  ci_part : forall k, (In k (crolled c) \/ exists ts, In (k, ts) (ccommitted c)) -> ~ In k (clocks c)
 }.
 
-Lemma cinv_resolve c k : cinv c -> cinv (cresolve c k).
+Lemma decide_idem st : decide (decide st) = decide st.
+Proof. destruct st; reflexivity. Qed.
+
+Lemma cinv_decided st0 c : cinv st0 c -> decide (cstat c) = decide st0.
+Proof. intros H. destruct (ci_stat _ _ H) as [->| ->]; [reflexivity|apply decide_idem]. Qed.
+
+Lemma cinv_resolve st0 c k : cinv st0 c -> cinv st0 (cresolve c k).
 Proof.
-  intros [H1 H2 H3]. unfold cresolve. destruct (key_in k (clocks c)) eqn:Ek; [|constructor; assumption].
-  assert (Hpart : forall x, In x (k :: crolled c) -> ~ In x (filter (fun y => negb (bytes_eqb k y)) (clocks c))).
-  { intros x [<-|Hx] Hin; apply filter_In in Hin as [Hin Hne].
-    - rewrite bytes_eqb_refl in Hne; discriminate.
-    - eapply H3; eassumption. }
-  destruct (cstat c) eqn:Es; [|congruence|]; constructor; cbn; try discriminate; assumption.
+  intros H. pose proof (cinv_decided _ _ H) as Hd. destruct H as [H1 H2 H3 H4].
+  unfold cresolve. destruct (key_in k (clocks c)) eqn:Ek; [|constructor; assumption].
+  rewrite Hd.
+  assert (Hf : forall x, x = k \/ ~ In x (clocks c) -> ~ In x (filter (fun y => negb (bytes_eqb k y)) (clocks c))).
+  { intros x [-> |Hx] Hin; apply filter_In in Hin as [Hin Hne]; [rewrite bytes_eqb_refl in Hne; discriminate|contradiction]. }
+  constructor; cbn [clocks cstat ccommitted crolled].
+  - right; reflexivity.
+  - intros x ts. destruct (decide st0) as [|ts0|]; try (apply H2). intros [[= <- <-]|Hin]; [reflexivity|apply (H2 x ts Hin)].
+  - intros x. destruct (decide st0) as [|ts0|] eqn:Ed.
+    + intros _ ts; discriminate.
+    + intros Hin. apply (H3 x Hin).
+    + intros _ ts; discriminate.
+  - intros x Hx. apply Hf. destruct (decide st0) as [|ts0|] eqn:Ed.
+    + destruct Hx as [[<-|Hx]|[ts Hx]]; [left; reflexivity|right; apply H4; left; exact Hx|right; apply H4; right; eauto].
+    + destruct Hx as [Hx|[ts [[= <- <-]|Hx]]]; [right; apply H4; left; exact Hx|left; reflexivity|right; apply H4; right; eauto].
+    + destruct Hx as [[<-|Hx]|[ts Hx]]; [left; reflexivity|right; apply H4; left; exact Hx|right; apply H4; right; eauto].
 Qed.
 
-Lemma crash_resolvers locks ks :
-  let c := crun (crash_state locks) ks in
-  ccommitted c = [] /\ cstat c <> PCommitted /\
-  (forall k, In k locks -> In k ks -> ~ In k (clocks c) /\ In k (crolled c)) /\
-  (forall k, In k (clocks c) -> In k locks).
+Lemma out_of_keep st0 c k0 k : cinv st0 c -> out_of st0 k c -> out_of st0 k (cresolve c k0).
+Proof.
+  intros H. pose proof (cinv_decided _ _ H) as Hd. unfold out_of, cresolve.
+  destruct (key_in k0 (clocks c)); [|auto]. rewrite Hd. destruct (decide st0); cbn; auto.
+Qed.
+
+Lemma crash_resolvers locks st0 ks :
+  let c := crun (crash_state locks st0) ks in
+  (forall k ts, In (k, ts) (ccommitted c) -> decide st0 = PCommitted ts) /\
+  (forall k, In k (crolled c) -> forall ts, decide st0 <> PCommitted ts) /\
+  (forall k, In k locks -> In k ks -> ~ In k (clocks c) /\ out_of st0 k c) /\
+  (forall k, In k (clocks c) -> In k locks) /\
+  (cstat c = st0 \/ cstat c = decide st0).
 Proof.
   unfold crun.
-  assert (G : forall ks c, cinv c ->
-     cinv (fold_left cresolve ks c) /\
-     (forall k, In k (clocks c) -> In k ks -> ~ In k (clocks (fold_left cresolve ks c)) /\ In k (crolled (fold_left cresolve ks c))) /\
-     (forall k, In k (crolled c) -> In k (crolled (fold_left cresolve ks c))) /\
+  assert (G : forall ks c, cinv st0 c ->
+     cinv st0 (fold_left cresolve ks c) /\
+     (forall k, In k (clocks c) -> In k ks -> ~ In k (clocks (fold_left cresolve ks c)) /\ out_of st0 k (fold_left cresolve ks c)) /\
+     (forall k, out_of st0 k c -> out_of st0 k (fold_left cresolve ks c)) /\
      (forall k, In k (clocks (fold_left cresolve ks c)) -> In k (clocks c))).
   { induction ks0 as [|k0 t IH]; intros c Hc; cbn [fold_left].
     - split; [exact Hc|]. split; [intros k _ []|]. split; auto.
-    - pose proof (cinv_resolve c k0 Hc) as Hc1. destruct (IH (cresolve c k0) Hc1) as (A & B & C & D).
+    - pose proof (cinv_resolve st0 c k0 Hc) as Hc1. destruct (IH (cresolve c k0) Hc1) as (A & B & C & D).
+      pose proof (cinv_decided _ _ Hc) as Hd.
       set (c1 := cresolve c k0) in *.
       assert (Hsub : forall k, In k (clocks c1) -> In k (clocks c)).
       { intros k. unfold c1, cresolve. destruct (key_in k0 (clocks c)); [|auto]. cbn. intros H; apply filter_In in H; tauto. }
-      assert (Hkeep : forall k, In k (crolled c) -> In k (crolled c1)).
-      { intros k Hk. unfold c1, cresolve. destruct (key_in k0 (clocks c)); [|exact Hk].
-        destruct Hc as [Hs _ _]. destruct (cstat c); try congruence; cbn; right; exact Hk. }
       assert (Hk0 : ~ In k0 (clocks c1)).
       { unfold c1, cresolve. destruct (key_in k0 (clocks c)) eqn:Ek.
         - cbn. intros Hy; apply filter_In in Hy as [_ Hy]. rewrite bytes_eqb_refl in Hy; discriminate.
         - intros Hy. apply key_in_In in Hy. congruence. }
-      assert (Hmove : forall k, In k (clocks c) -> ~ In k (clocks c1) -> In k (crolled c1)).
+      assert (Hmove : forall k, In k (clocks c) -> ~ In k (clocks c1) -> out_of st0 k c1).
       { intros k Hk Hn. assert (k = k0) as ->.
         { destruct (list_eq_dec N.eq_dec k k0) as [E|E]; [exact E|]. exfalso. apply Hn.
           unfold c1, cresolve. destruct (key_in k0 (clocks c)); [|exact Hk]. cbn. apply filter_In. split; [exact Hk|].
           rewrite bytes_eqb_sym, bytes_eqb_neq; [reflexivity|exact E]. }
-        unfold c1, cresolve. rewrite (proj2 (key_in_In k0 (clocks c)) Hk).
-        destruct Hc as [Hs _ _]. destruct (cstat c); try congruence; cbn; left; reflexivity. }
+        unfold out_of, c1, cresolve. rewrite (proj2 (key_in_In k0 (clocks c)) Hk), Hd.
+        destruct (decide st0); cbn; left; reflexivity. }
       split; [exact A|]. split; [|split].
       + intros k Hin Hkt. destruct (in_dec (list_eq_dec N.eq_dec) k (clocks c1)) as [Hy|Hn].
         * destruct Hkt as [<-|Ht]; [contradiction|]. apply B; assumption.
         * split; [intros Hf; apply Hn, D, Hf|apply C, Hmove; assumption].
-      + intros k Hk. apply C, Hkeep, Hk.
+      + intros k Hk. apply C, out_of_keep; assumption.
       + intros k Hk. apply Hsub, D, Hk. }
   cbv zeta.
-  assert (Hc0 : cinv (crash_state locks)) by (constructor; cbn; [discriminate|reflexivity|tauto]).
-  destruct (G ks (crash_state locks) Hc0) as ([A1 A2 A3] & B & C & D).
-  split; [exact A2|]. split; [exact A1|]. split; [intros k H1 H2; apply B; assumption|exact D].
+  assert (Hc0 : cinv st0 (crash_state locks st0)).
+  { constructor; cbn; [left; reflexivity|intros k ts []|intros k []|intros k [[]|[ts []]]]. }
+  destruct (G ks (crash_state locks st0) Hc0) as ([A1 A2 A3 A4] & B & C & D).
+  split; [exact A2|]. split; [exact A3|]. split; [intros k H1 H2; apply B; assumption|]. split; [exact D|exact A1].
 Qed.
